@@ -173,6 +173,7 @@ theorem inv_adjustPool {s s' : State} {sender id add rpb} (hi : Inv s) (hu : isM
   have c1 := core_updOk hi.core hp ok (by intro hh; omega)
   have b2 := (sendAll_ok h2).1
   have c2 := core_bankOnly b2 c1
+  have hcpu2 : CpUsers s2 := cpUsers_of_cp (by rw [b2.cp, ok.cp]) hi.cpu
   have hp1 : getPool s1 id = some p1 := getPool_set_self _ _ _ _ ok.pools
   have hp2 : getPool s2 id = some p1 := by unfold getPool; rw [b2.pools]; exact hp1
   have w1 := c2.wf id p1 hp2
@@ -337,7 +338,7 @@ theorem inv_adjustPool {s s' : State} {sender id add rpb} (hi : Inv s) (hu : isM
     have gself := getPool_set_self _ _ _ _ hpl
     have gother : ∀ id2, id ≠ id2 → getPool (setPool s2 id { p1 with rules := adjustRules addL rpbL p1.rules }) id2 = getPool s2 id2 :=
       fun id2 e => getPool_set_other s2 _ id id2 _ hpl e
-    refine ⟨⟨c2.hnn, poolsAll_set c2.wf hpl wfA.1, ?_, ?_, ?_, ?_, ?_, ?_⟩, hst, ?_⟩
+    refine ⟨⟨c2.hnn, poolsAll_set c2.wf hpl wfA.1, ?_, ?_, ?_, ?_, ?_, ?_⟩, hst, ?_, cpUsers_of_cp (s := s2) rfl hcpu2⟩
     · show PoolsAll (PoolTime s2.height) _
       rw [hh2]
       have := c2.time; rw [hh2] at this
@@ -407,7 +408,8 @@ theorem inv_adjustPool {s s' : State} {sender id add rpb} (hi : Inv s) (hu : isM
       have : (setPool (dequeue s2 id p1.endH) id pf).queue = (dequeue s2 id p1.endH).queue := rfl
       rw [this, mem_dequeue]
     have wfpf : PoolWF pf := by rw [← hq0]; exact wfA.2 newEnd
-    refine ⟨⟨by rw [hhe]; exact c2.hnn, poolsAll_set c2.wf hpl wfpf, ?_, ?_, ?_, ?_, ?_, ?_⟩, hst, ?_⟩
+    refine ⟨⟨by rw [hhe]; exact c2.hnn, poolsAll_set c2.wf hpl wfpf, ?_, ?_, ?_, ?_, ?_, ?_⟩, hst, ?_,
+      cpUsers_of_cp (s := s2) (by unfold enqueue; split <;> rfl) hcpu2⟩
     · rw [hhe, hh2]
       have := c2.time; rw [hh2] at this
       exact poolsAll_set this hpl (timeA pf hpfr hpfl hpfs hpfk)
